@@ -1,3 +1,4 @@
 pub mod engines;
+pub mod fuzzing;
 pub mod props;
 pub mod sim;
